@@ -97,6 +97,8 @@ def jobs(tier, seed):
     for m in MODES:
         out.append({'fn': 'round_q', 'cfg': {'n': 2, 'unit': 'mi', 'mode': m}})
     out.append({'fn': 'rejects', 'cfg': {}})
+    for m in ('ROUND_HALF_EVEN', 'ROUND_DOWN', 'ROUND_CEILING'):
+        out.append({'fn': 'round_quantized', 'cfg': {'mode': m}})
     for pr, qv in ((['g', 'kg'], '1'), (['km', 'm'], '250'), (['kg', 'g'], '500')):
         out.append({'fn': 'quantize_sequence', 'cfg': {'pair': pr, 'quant': qv, 'case': 'other-unit', 'modes': ['ROUND_HALF_EVEN', None]}})
     for i, (m1, m2) in enumerate((('ROUND_HALF_EVEN', 'ROUND_DOWN'), ('ROUND_FLOOR', 'ROUND_CEILING'), ('ROUND_HALF_UP', 'ROUND_05UP'))):
@@ -276,6 +278,34 @@ def round_q(E, cfg):
         r0 = round(q)
         E.check(E.is_rounding(_mode(cfg['mode']), r0.amount, a), 'round-default-digits')
     E.observe('rounded', r.amount)
+
+
+def round_quantized(E, cfg):
+    """round(q, n) on a type with a quantum (concrete amounts, enumeration): the amount rounded to n decimals, then held on
+    the type's grid like every amount of the type; unit and type kept, no exception"""
+    from decimalfp import Decimal
+    from quantity import Quantity
+    from symx.concrete import round_q as rq
+    mname = cfg['mode']
+    _set_default(mname)
+    us = E.choice('unit', ['b', 'B', 'kb', 'kB', 'KiB', 'MiB'])
+    u = C.unit(us)
+    amt = E.choice('amount', ['12', '12.34', '0.0625', '-7.5', '1000.0005', '5/3'])
+    n = E.choice('n', [0, 1, 2, 4, 6, -1])
+    qu = Fraction(1, 8) / C.scale(u)                    # quantum of DataVolume in u
+    held = rq(_mode(mname), Fraction(amt) / qu) * qu   # what the constructor holds
+    q = Quantity(C.num(amt), u)
+    E.check(q.amount == held, 'constructed-on-grid', key='round-quantized:ctor', info=[us, amt])
+    try:
+        r = round(q, n)
+    except Exception as e:
+        E.fail('round-quantized-does-not-raise', key='round-quantized:%s' % type(e).__name__, info=[us, amt, n, mname])
+        return
+    sh = Fraction(10) ** n
+    rounded = rq(_mode(mname), held * sh) / sh
+    exp = rq(_mode(mname), rounded / qu) * qu
+    E.check(r.unit is u and type(r) is type(q), 'round-quantized-keeps-unit-class', key='round-quantized:unit-class')
+    E.check(r.amount == exp, 'round-quantized-amount', key='round-quantized:amount', info=[us, amt, n, mname, str(r.amount), str(exp)])
 
 
 def rejects(E, cfg):
